@@ -2180,6 +2180,10 @@ class Interp:
         if id(fn.node) in mod.qualname_of:
             qual = f"{mod.name}::{mod.qualname_of[id(fn.node)]}"
         if qual in self.summaries:
+            if kwargs and self.summaries[qual] is not None:
+                # summaries look at arguments by position: a call spelled with keywords is the same call
+                # (the keywords stay available by name as well)
+                args = self.positional(fn, args, kwargs)
             r = self.summaries[qual](self, fn, args, kwargs)
             if r is not NotImplemented:
                 return r
@@ -2226,6 +2230,21 @@ class Interp:
         finally:
             self.depth -= 1
             self.qual_stack.pop()
+
+    def positional(self, fn, args, kwargs):
+        """the arguments of a call in parameter order (keyword arguments moved to their positions; stops at the first parameter
+        that was not given) - for summaries that inspect what a callee was handed, whatever the call's spelling"""
+        node = getattr(fn, "node", None)
+        if node is None or not kwargs:
+            return list(args)
+        params = [p.arg for p in node.args.posonlyargs + node.args.args]
+        out = list(args)
+        for name in params[len(out):]:
+            if name in kwargs:
+                out.append(kwargs[name])
+            else:
+                break
+        return out
 
     def bind_args(self, fn, env, args, kwargs):
         a = fn.node.args
